@@ -561,7 +561,8 @@ func cnfPols(maxn int) []apol {
 	return out
 }
 
-// every split of n holders into consecutive non-empty levels with strictly increasing cumulative thresholds
+// every split of n holders into consecutive levels (the first non-empty, later ones possibly empty, never two empty
+// ones in a row) with strictly increasing cumulative thresholds
 func hierPols(maxn int) []apol {
 	out := []apol{}
 	for n := 1; n <= maxn; n++ {
@@ -591,10 +592,17 @@ func hierPols(maxn int) []apol {
 					}
 				}
 				ths(0, 0, 0, nil)
+				if len(cur) < n && cur[len(cur)-1] != 0 { // a trailing level without parties
+					comps(0, append(append([]int{}, cur...), 0))
+				}
 				return
 			}
 			for sz := 1; sz <= left; sz++ {
 				comps(left-sz, append(append([]int{}, cur...), sz))
+			}
+			// a later level may bring no parties of its own: it only raises the cumulative threshold (at most n levels)
+			if len(cur) >= 1 && len(cur) < n && cur[len(cur)-1] != 0 {
+				comps(left, append(append([]int{}, cur...), 0))
 			}
 		}
 		comps(n, nil)
@@ -1778,6 +1786,21 @@ func runC05(pols []*policy) {
 						cases = append(cases, verify(id, addAt(lam, k, dv), dl.V, "coord"))
 					}
 				}
+				// holders with several rows: changes of two coordinates that keep their sum, and exchanged coordinates
+				for k1 := 0; k1 < len(lam); k1++ {
+					for k2 := k1 + 1; k2 < len(lam); k2++ {
+						for n, dv := range dls {
+							if n < 3 && dv%q != 0 {
+								cases = append(cases, verify(id, addAt(addAt(lam, k1, dv), k2, q-dv%q), dl.V, "pair"))
+							}
+						}
+						if lam[k1] != lam[k2] {
+							sw := append([]uint64{}, lam...)
+							sw[k1], sw[k2] = sw[k2], sw[k1]
+							cases = append(cases, verify(id, sw, dl.V, "swap"))
+						}
+					}
+				}
 				if len(lam) > 1 {
 					cases = append(cases, verify(id, lam[:len(lam)-1], dl.V, "short"))
 				}
@@ -2030,6 +2053,17 @@ func runC05(pols []*policy) {
 					}
 					// equivocation with the known trapdoor: the commitment is unchanged
 					cases = append(cases, pverify(id, addAt(sec, k, dls[0]), addAt(bl, k, mulq(dls[0], minusInvEta)), x.V, "equivocate"))
+				}
+				// several rows: sum-preserving changes of two secret coordinates; secret and blinding coordinates exchanged in step
+				for k1 := 0; k1 < len(sec); k1++ {
+					for k2 := k1 + 1; k2 < len(sec); k2++ {
+						cases = append(cases, pverify(id, addAt(addAt(sec, k1, dls[0]), k2, q-dls[0]%q), bl, x.V, "pair"))
+						if sec[k1] != sec[k2] || bl[k1] != bl[k2] {
+							s2, b2 := append([]uint64{}, sec...), append([]uint64{}, bl...)
+							s2[k1], s2[k2], b2[k1], b2[k2] = s2[k2], s2[k1], b2[k2], b2[k1]
+							cases = append(cases, pverify(id, s2, b2, x.V, "swap"))
+						}
+					}
 				}
 				if len(sec) > 1 {
 					cases = append(cases, pverify(id, sec[:len(sec)-1], bl[:len(bl)-1], x.V, "short"))
